@@ -5,6 +5,7 @@ ID = "C31"
 HARNESS_PKG = "h_c31"
 COQ_IMPORTS = "From PV Require Import Model.GroupCrdt Oracle.C31."
 COQ_SHARD = 40
+SEARCH_LIMIT = 600
 FINDING = "members_order_dependent_with_conditions"
 
 TECHNIQUE = ("Coq proof (merge of member states is ACI without conditions => the per-operation state is a function of the operation's "
@@ -34,7 +35,7 @@ TRUSTED = ["modelled not verified: HashMap iteration order = list order (theorem
 RULE = ("random concurrent group histories built by a python simulator of replicas/branches (create, add, remove incl. self-removal, "
         "promote, demote, nested groups, a few unauthorised operations), modes: plain (C=()), cond-sep (one fixed condition per "
         "individual, no nesting), cond-mixed (random conditions below Manage, nesting); each processed in the generation order plus "
-        "random topological orders (quick: 4 orders x 3 queries, 6-14 ops; thorough: 8 orders, up to 22 ops). "
+        "random topological orders (quick: 240 histories, 4 orders x 3 queries, 3-14 ops; thorough: 750 histories, 8 orders, up to 22 ops). "
         "non-trivial = the history has at least two concurrent operations, at least two distinct orders were run and a non-create "
         "operation was accepted")
 
@@ -255,7 +256,7 @@ def gen(tier, rng):
         plan = [("plain", 150, 4), ("sep", 40, 4), ("mixed", 50, 4)]
         steps, maxops = (8, 18), 14
     else:
-        plan = [("plain", 900, 8), ("sep", 200, 8), ("mixed", 300, 8)]
+        plan = [("plain", 500, 8), ("sep", 100, 8), ("mixed", 150, 8)]
         steps, maxops = (8, 30), 22
     for mode, n, norders in plan:
         k = 0
